@@ -139,6 +139,8 @@ pub fn history(cfg: &Cfg, rep: &mut Report, h: u64, steps: usize, e2e: bool) {
     for i in 0..nid {
         invoke::<()>(e, &irs, "add_identity", args!(e, accounts[i], identities[i], IdentityType::Individual, countries.clone())).expect("add_identity");
     }
+    // which identity contract an account is registered with (edited during the history)
+    let mut ident_of: Vec<Option<usize>> = (0..=nid).map(|i| if i < nid { Some(i) } else { None }).collect();
     let topics_u: [u32; 4] = [1, 2, 3, 4];
     // model
     let mut allowed: BTreeSet<(usize, usize, u32)> = BTreeSet::new(); // (issuer, key, topic)
@@ -186,7 +188,7 @@ pub fn history(cfg: &Cfg, rep: &mut Report, h: u64, steps: usize, e2e: bool) {
         let mut t = *rng.pick(&topics_u);
         // claims are mostly built for (issuer, topic) pairs that do have an allowed key
         let mut forced_key: Option<usize> = None;
-        if k >= 58 && !allowed.is_empty() && rng.chance(4, 5) {
+        if k >= 60 && !allowed.is_empty() && rng.chance(4, 5) {
             let cand: Vec<&(usize, usize, u32)> = allowed.iter().collect();
             let (i2, k2, t2) = **rng.pick(&cand);
             ii = i2;
@@ -321,6 +323,44 @@ pub fn history(cfg: &Cfg, rep: &mut Report, h: u64, steps: usize, e2e: bool) {
             if r.is_ok() {
                 held.remove(&(id2, i2, t2));
             }
+        } else if k < 60 && k >= 58 {
+            // the account -> identity link itself changes: re-pointed to another identity contract (two
+            // accounts may then share one), removed, registered again, or recovered to another account
+            let a = rng.idx(accounts.len());
+            let j = rng.idx(nid);
+            match (ident_of[a], rng.below(4)) {
+                (Some(_), 0) => {
+                    let r: Result<(), Fail> = invoke(e, &irs, "modify_identity", args!(e, accounts[a], identities[j]));
+                    rep.op(format!("#{step} irs.modify_identity(account {a} -> ID{j}) -> {}", tag(&r)));
+                    if r.is_ok() {
+                        ident_of[a] = Some(j);
+                    }
+                }
+                (Some(_), 1) => {
+                    let r: Result<(), Fail> = invoke(e, &irs, "remove_identity", args!(e, accounts[a]));
+                    rep.op(format!("#{step} irs.remove_identity(account {a}) -> {}", tag(&r)));
+                    if r.is_ok() {
+                        ident_of[a] = None;
+                    }
+                }
+                (Some(idn), _) => {
+                    let b = rng.idx(accounts.len());
+                    let r: Result<(), Fail> = invoke(e, &irs, "recover_identity", args!(e, accounts[a], accounts[b]));
+                    rep.op(format!("#{step} irs.recover_identity(account {a} -> account {b}) -> {}", tag(&r)));
+                    if r.is_ok() {
+                        ident_of[a] = None;
+                        ident_of[b] = Some(idn);
+                    }
+                }
+                (None, _) => {
+                    let r: Result<(), Fail> = invoke(e, &irs, "add_identity", args!(e, accounts[a], identities[j], IdentityType::Individual, countries.clone()));
+                    rep.op(format!("#{step} irs.add_identity(account {a}, ID{j}) -> {}", tag(&r)));
+                    if r.is_ok() {
+                        ident_of[a] = Some(j);
+                    }
+                }
+            }
+            rep.count("identity_link_edits");
         } else if k < 58 {
             let adv = *rng.pick(&[1u64, 50, 99, 100, 101, 1_000_000]);
             ts += adv;
@@ -433,13 +473,14 @@ pub fn history(cfg: &Cfg, rep: &mut Report, h: u64, steps: usize, e2e: bool) {
         for a in 0..accounts.len() {
             let r: Result<(), Fail> = invoke(e, &verifier, "verify_identity", args!(e, accounts[a]));
             rep.evaluations += 1;
-            let mut want = a < nid;
+            let mut want = ident_of[a].is_some();
             let mut why = String::from("ok");
-            if a >= nid {
+            if ident_of[a].is_none() {
                 why = "no-identity".into();
             } else {
+                let idn = ident_of[a].unwrap();
                 for (tp, is) in reg.iter() {
-                    let ok = is.iter().any(|i| *i < issuers.len() && held.get(&(a, *i, *tp)).map_or(false, |rec| valid_now(a, *i, *tp, rec)));
+                    let ok = is.iter().any(|i| *i < issuers.len() && held.get(&(idn, *i, *tp)).map_or(false, |rec| valid_now(idn, *i, *tp, rec)));
                     if !ok {
                         want = false;
                         why = if is.is_empty() { format!("topic-{tp}-has-no-trusted-issuer") } else { format!("topic-{tp}-unsatisfied") };
@@ -452,7 +493,7 @@ pub fn history(cfg: &Cfg, rep: &mut Report, h: u64, steps: usize, e2e: bool) {
             rep.count(&format!("verify:{}", tag(&r)));
             if r.is_ok() {
                 let sig = if why.contains("no-trusted-issuer") { "C15/verify/verify_identity/passed-with-required-topic-without-issuer" } else { "C15/verify/verify_identity/passed-without-valid-claim" };
-                rep.check("verify", want, sig, || format!("verify_identity(account {a}) passed at step {step}; required topics and trusted issuers {reg:?}; reason it should fail: {why}; held claims {:?}", held.keys().filter(|k| k.0 == a).collect::<Vec<_>>()));
+                rep.check("verify", want, sig, || format!("verify_identity(account {a}) passed at step {step}; required topics and trusted issuers {reg:?}; reason it should fail: {why}; held claims {:?}", held.keys().filter(|k| Some(k.0) == ident_of[a]).collect::<Vec<_>>()));
             } else {
                 rep.check("verify", !want, "C15/verify/verify_identity/refused-although-every-topic-is-covered", || format!("verify_identity(account {a}) refused ({r:?}) although every required topic {reg:?} has a valid claim from a trusted issuer"));
             }
@@ -469,7 +510,7 @@ pub fn history(cfg: &Cfg, rep: &mut Report, h: u64, steps: usize, e2e: bool) {
                     if r.is_ok() {
                         tbal[a] += 3;
                         rep.count("e2e_mint_ok");
-                        rep.check("gate", verdicts[a], "C04/gate/real-identity/mint/passed-with-unverified-recipient", || format!("mint to account {a} passed at step {step} although its identity is not verified: required topics and trusted issuers {reg:?}, held claims {:?}", held.keys().filter(|k| k.0 == a).collect::<Vec<_>>()));
+                        rep.check("gate", verdicts[a], "C04/gate/real-identity/mint/passed-with-unverified-recipient", || format!("mint to account {a} passed at step {step} although its identity is not verified: required topics and trusted issuers {reg:?}, held claims {:?}", held.keys().filter(|k| Some(k.0) == ident_of[a]).collect::<Vec<_>>()));
                     } else {
                         rep.check("ref", !verdicts[a], "C04/ref/real-identity/mint/refused-although-verified", || format!("mint to verified account {a} refused at step {step}: {r:?}"));
                     }
@@ -507,7 +548,7 @@ pub fn history(cfg: &Cfg, rep: &mut Report, h: u64, steps: usize, e2e: bool) {
 }
 
 pub fn run(cfg: &Cfg, rep: &mut Report) {
-    rep.rule = "Seeded histories on the real stack (claim-topics-and-issuers, identity registry storage, identity claims, identity verifier, claim issuer assembled from the library helpers): registry edits (topics with several, one and ZERO issuers; removed and re-added topics and issuers; 'currently trusted' is taken from the edit history and compared with the registry's own answer), a fourth, scripted issuer that confirms, fails or RETURNS false, allow/remove key, nonce bump, revoke/un-revoke, time advance past valid_until, add_claim with genuine or single-defect claims (wrong topic / identity / issuer / nonce in the signed message, data or signature altered, truncated, other scheme, expired, foreign key) signed with real Ed25519 / P-256 / secp256k1 keys. After every step verify_identity for 4 accounts and (every 3rd step) is_claim_valid for every held claim are compared with the iff-oracle. Distinct case = (registry shape, verdict class, outcome) / (scheme, defect or invalidation kind, outcome).".into();
+    rep.rule = "Seeded histories on the real stack (claim-topics-and-issuers, identity registry storage, identity claims, identity verifier, claim issuer assembled from the library helpers): registry edits (topics with several, one and ZERO issuers; removed and re-added topics and issuers; 'currently trusted' is taken from the edit history and compared with the registry's own answer), a fourth, scripted issuer that confirms, fails or RETURNS false, allow/remove key, nonce bump, revoke/un-revoke, time advance past valid_until, add_claim with genuine or single-defect claims (wrong topic / identity / issuer / nonce in the signed message, data or signature altered, truncated, other scheme, expired, foreign key) signed with real Ed25519 / P-256 / secp256k1 keys. The account -> identity link is edited too (modify / remove / add again / recover; two accounts may share one identity). After every step verify_identity for 4 accounts and (every 3rd step) is_claim_valid for every held claim are compared with the iff-oracle. Distinct case = (registry shape, verdict class, outcome) / (scheme, defect or invalidation kind, outcome).".into();
     let nh = cfg.pick(16u64, 100);
     let steps = cfg.pick(120usize, 250);
     for k in 0..nh {
